@@ -152,7 +152,11 @@ class MetadataGenerator:
                         if len(field.type) == 1:
                             field.type = field.type.types[0]
                     else:
-                        if field_original == field or (isinstance(field, DOptional) and field_original == field.type):
+                        if field_original == field:
+                            continue
+                        if isinstance(field, DOptional) and field_original == field.type:
+                            # Same type, but optional in this model: the merged field is optional too
+                            fields[name] = field
                             continue
                         field = DUnion(
                             *(field.types if isinstance(field, DUnion) else [field]),
